@@ -1019,6 +1019,11 @@ func (r *Runner) finish(start time.Time, allExh bool) int {
 	if violations > 25 {
 		fmt.Printf("  ... and %d more distinct failure signatures (not listed)\n", violations-25)
 	}
+	if os.Getenv("VCHECK_LIST_ALL") != "" {
+		for _, sig := range sigs {
+			fmt.Printf("SIG %s (%d)\n", truncate(sig, 300), r.failN[sig])
+		}
+	}
 	r.writeEvidence(start, allExh, violations, knownHits)
 	var ex, ev int64
 	for _, s := range r.stats {
